@@ -36,7 +36,7 @@ def rnd_cap(r, kind, asn):
                 return list(r.choice(KNOWN_FAM)) + [r.choice([1, 2, 3])]
             if x < 0.82:
                 return list(r.choice(KNOWN_FAM)) + [r.choice([0, 4, 255])]
-            return [r.choice([0, 3, 99, 65535]), r.choice([0, 3, 99, 255]), r.choice([1, 2, 3])]
+            return r.choice([[2, 2], [1, 132], [25, 65], [1, 129], [r.choice([0, 3, 99, 65535]), r.choice([0, 3, 99, 255])]]) + [r.choice([1, 2, 3])]
         return {'k': 'addpath', 'l': [tup() for _ in range(r.choice([0, 1, 2, 3, 4]))]}
     if kind == 'llgr':
         return {'k': 'llgr', 'l': [[r.getrandbits(16), r.getrandbits(8), r.getrandbits(8), r.choice([0, 1, 2 ** 24 - 1, r.getrandbits(24)])]
@@ -123,9 +123,25 @@ def expected_from_local(asn, hold, bid, caps):
     return {'ok': {'version': 4, 'asn': asn, 'hold_time': hold, 'bgp_id': G.ip(bid), 'capabilities': d}}
 
 
+def earlier_traffic():
+    """what the same process decoded before the OPENs under test: UPDATEs whose MP_REACH_NLRI / MP_UNREACH_NLRI name address
+    families the agent has no name for, a NOTIFICATION, a ROUTE-REFRESH.  Decoding an OPEN is a function of its octets: it does
+    not depend on what was decoded earlier (tables shared between the decoders must not be written to)."""
+    for afi, safi in ((2, 2), (1, 132), (25, 65), (1, 129), (3, 1), (65535, 255)):
+        mp = struct.pack('!HB', afi, safi) + b'\x04\x0a\x00\x00\x01\x00' + b'\x18\x0a\x01\x02'
+        attrs = bytes.fromhex('40010100' '400200') + b'\x80\x0e' + bytes([len(mp)]) + mp
+        I.upd_parse(struct.pack('!H', 0) + struct.pack('!H', len(attrs)) + attrs, True, False)
+        un = struct.pack('!HB', afi, safi) + b'\x18\x0a\x01\x02'
+        attrs = b'\x80\x0f' + bytes([len(un)]) + un
+        I.upd_parse(struct.pack('!H', 0) + struct.pack('!H', len(attrs)) + attrs, False, False)
+    I.notif_parse(b'\x06\x02')
+    I.rr_parse(b'\x00\x02\x00\x02')
+
+
 def run(seed, tier, driver):
     res = SuiteResult('openmsg')
     r = rng_for(seed, 'openmsg', tier)
+    earlier_traffic()
 
     # ---- OPEN construct correspondence + round trip oracle
     ccases = []
